@@ -125,15 +125,17 @@ def _gen_flight(rng, prim, tier):
                 gates.append(gate)
             key = 0 if prim == "bar" else rng.randint(1, nkeys)
             val = 100 * (t + 1) + i + 1
-            if prim in ("sf", "lc") and rng.random() < 0.18:
+            if prim in ("sf", "lc", "bar") and rng.random() < 0.18:
                 val = 0                       # the user fn panics (after its gate)
+            elif prim == "sf" and rng.random() < 0.15:
+                val = rng.choice([901, 902])  # fn returns an error wrapping context.Canceled / DeadlineExceeded
             if prim == "rm" and gate and rng.random() < 0.4:
                 # held up just before entering the manager's single flight (the gate is NOT inside create)
                 scripts[t].append(_op(2, key, gate, rng.choice(cchoices)))
             elif prim == "rm":
                 scripts[t].append(_op(0, key, gate, rng.choice(cchoices)))   # 1: create fails, 2: create panics, 3: the resource's Close() fails
             else:
-                scripts[t].append(_op(rng.choice([0, 0, 1]) if prim == "sf" else 0, key, gate, val))
+                scripts[t].append(_op(rng.choice([0, 0, 1]) if prim in ("sf", "bar") else 0, key, gate, val))   # bar code 1: syncx.Guard
     closed = set()
     early_close = closer is not None and rng.random() < 0.4    # Close while creates may be in flight
     for _ in range(rng.randint(8, 30)):
@@ -657,6 +659,16 @@ def _directed():
     # and the Borrow stays blocked (before the fix they paired up: 1 outstanding borrow on a limit of 0)
     out.append({"prim": "lim", "n": 0, "m": 0, "scripts": [[_op(0), _op(2)], [_op(2), _op(1), _op(2)]],
                 "sched": [_t(0), _t(1), _t(1), _t(1), _t(0)]})
+    # Barrier.Guard / syncx.Guard with a guarded function that panics: the lock is released, the next Guard proceeds
+    out.append({"prim": "bar", "n": 0, "m": 0,
+                "scripts": [[_op(0, 0, 1, 0), _op(0, 0, 0, 102)], [_op(1, 0, 0, 0), _op(0, 0, 0, 202)], [_op(1, 0, 0, 301)]],
+                "sched": [_t(0), _t(1), g1, _t(2), _t(0), _t(1)]})
+    # SingleFlight: the leader's fn returns an error wrapping context.Canceled / DeadlineExceeded: the followers
+    # (Do and DoEx) still get the shared result -- one execution for all overlapping calls
+    for code in (901, 902):
+        out.append({"prim": "sf", "n": 0, "m": 0,
+                    "scripts": [[_op(1, 1, 1, code), _op(0, 1, 0, 102)], [_op(0, 1, 0, 201)], [_op(1, 1, 0, 301)], [_op(0, 1, 2, 401)]],
+                    "sched": [_t(0), _t(1), _t(2), _t(3), g1, {"k": "o", "v": 2}, _t(0)]})
     # TWO instances, same key, overlapping: the second instance shares nothing with the first
     out.append({"prim": "rm", "n": 0, "m": 0, "split": 2,
                 "scripts": [[_op(0, 1, 1, 0)], [_op(1)], [_op(0, 1, 0, 0), _op(0, 1, 0, 0)], [_op(1)]],
@@ -914,6 +926,10 @@ def bucket(case, obs):
         out.append("tl:boundary-timeout")
     if case["prim"] in ("spinx", "donex", "oncex"):
         out.append("stress")
+    if case["prim"] == "sf" and any(e[1] == 3 and e[4] in (901, 902) for e in h):
+        out.append("sf:leader-context-error")
+    if case["prim"] == "bar" and any(e[1] == 1 and e[5] == 2 for e in h):
+        out.append("bar:fn-panicked")
     if case.get("split"):
         out.append("two-instances")
     if case.get("spec_only"):
